@@ -202,6 +202,31 @@ def trivial_materializations():
     return out
 
 
+def factory_leaves():
+    """Unnamed leaves made through the engines' own make_leaf, with and without a prefix, over empty and non-empty
+    payloads, zero-column ones included; doomed and join-identity relations made without a name are listed with them."""
+    import sqlalchemy
+    out = []
+    it, sq = iteration.Engine(name="fl_it"), sql.Engine(name="fl_sql")
+    for rnd in range(3):
+        for pref in ("leaf", "tmp", "_x"):
+            for cols, rows in (({K(1)}, []), ({K(1)}, [{K(1): 1}]), (set(), []), (set(), [{}]), ({K(1), K(2)}, [])):
+                for payload in (iteration.RowSequence(list(rows)), iteration.RowMapping((K(1),), {}) if cols == {K(1)} and not rows else None):
+                    if payload is None:
+                        continue
+                    out.append((pref, it.make_leaf(cols, payload=payload, name_prefix=pref).name))
+            table = sqlalchemy.table(f"t{rnd}{pref}", sqlalchemy.column("k1"))
+            pl = sql.Payload(from_clause=table, columns_available={K(1): table.c.k1})
+            for kw in ({}, {"min_rows": 0, "max_rows": 0}):
+                x = sq.make_leaf({K(1)}, payload=pl, name_prefix=pref, **kw)
+                while not isinstance(x, dr.LeafRelation):       # the SQL engine may hand it out in a SELECT marker
+                    x = x.target
+                out.append((pref, x.name))
+        out.append(("leaf", it.make_leaf({K(1)}, payload=iteration.RowSequence([])).name))
+        out.append(("leaf", it.make_leaf(set(), payload=iteration.RowSequence([])).name))
+    return out
+
+
 def engine_turnover():
     """Engines created and dropped one after another (one per query is the common pattern): the names handed out by all
     of them, kept by the caller, must still be pairwise distinct."""
@@ -245,7 +270,8 @@ def run(ctx):
     forced = []
     try:
         forced = forced_interleavings() + [("engines created and dropped one after another", engine_turnover()),
-                                           ("materializations of statically empty / join-identity relations", trivial_materializations())]
+                                           ("materializations of statically empty / join-identity relations", trivial_materializations()),
+                                           ("unnamed leaves made by the engines' make_leaf over empty and non-empty payloads", factory_leaves())]
     except Exception as e:  # noqa: BLE001 — the probe no longer fits the code: reported through the correspondence
         s1["ok"] = False
         s1["broken"].append({"kind": "model-implementation-correspondence-broken",
